@@ -13,6 +13,7 @@ type dgen struct {
 	resetW     int
 	firstFault int // stratified call index of the first writer fault (-1 random)
 	geomClass  string
+	bigLits    bool // plain writes and trailing literals are sized "any" (oversize allowed: Write chunks them) while sequences keep g.sizes
 }
 
 func genDecoderSpec(r *RNG, target, class string) DecoderSpec {
@@ -256,6 +257,10 @@ func genDecoderTrace(r *RNG, g dgen) *Trace {
 		spec.WPlan = genWPlan(r, g.firstFault, 12)
 	}
 	t := &Trace{World: "decoder", D: &spec}
+	gl := g // sizing of plain writes and trailing literals
+	if g.bigLits {
+		gl.sizes = "any"
+	}
 	w := []int{6, 8, 5, 12, g.readBias, g.readBias, 2, g.resetW} // WByte Write WMatch WBlock Read Flush ByteAtEnd Reset
 	if target == "decoder" {
 		w[2], w[4], w[6] = 0, 0, 0
@@ -265,7 +270,7 @@ func genDecoderTrace(r *RNG, g dgen) *Trace {
 		case 0:
 			t.Ops = append(t.Ops, Op{K: "WByte", X: r.Pick(0, 0, 1, 97, 98, 255)})
 		case 1:
-			n := itemSize(r, &g, ws, bs)
+			n := itemSize(r, &gl, ws, bs)
 			t.Ops = append(t.Ops, Op{K: "Write", Lits: genLits(r, n), Re: r.Chance(g.retry)})
 		case 2:
 			op := Op{K: "WMatch", N: itemSize(r, &g, ws, bs), Sel: r.Float()}
@@ -293,7 +298,7 @@ func genDecoderTrace(r *RNG, g dgen) *Trace {
 			seqs, nl := genSeqSpecs(r, &g, ws, bs, r.Chance(g.malformed))
 			trail := 0
 			if r.Chance(0.6) {
-				trail = itemSize(r, &g, ws, bs)
+				trail = itemSize(r, &gl, ws, bs)
 				if r.Chance(0.5) {
 					trail = r.Intn(min(trail, 6) + 1)
 				}
